@@ -25,6 +25,9 @@ class VirtualToReal:
     self._import_references(previous)
     self._gfa._unregister_line(previous)
     self._gfa._register_line(self)
+    # the replaced line object does not belong to the Gfa any more
+    previous._gfa = None
+    previous._refs = {}
     return None
 
   def _import_references(self, previous):
